@@ -39,7 +39,13 @@ def main():
     os.makedirs(dstdir, exist_ok=True)
     confirm_file = os.path.join(dstdir, ".confirm.json")
     if a.phase == "check":
-        res.update(json.load(open(confirm_file)))
+        if os.path.exists(confirm_file):
+            res.update(json.load(open(confirm_file)))
+        else:
+            # re-run of the check phase: reuse the confirmation recorded in meta.json
+            old = json.load(open(os.path.join(dstdir, "meta.json")))["what_was_run"]
+            res.update({k: old[k] for k in old if k not in ("check_runs", "detected_by", "ran_at")})
+            res["earlier_check_runs"] = old.get("earlier_check_runs", []) + [{"ran_at": old.get("ran_at"), "runs": old.get("check_runs")}]
         demo_name = res["demo_name"]; cmd = res["demo_cmd"]
         extras = [x for x in a.extra.split(",") if x]
         return check_phase(a, res, src, patch, dstdir, demo_name, cmd, extras)
